@@ -128,12 +128,14 @@ def jobs(tier):
     for f in ("bintEQ", "bintLT", "bintGT"):
         for k, kn in KK:
             J("bint.%s.%s" % (f, kn), "h_%s_%s" % (f, k), [f], bk("a")[:-1] + bk("b0")[:-1] + ["same"],
-              cls="P" if k == "ii" else "B", bound=None if k == "ii" else B3, enforce=E(f), unwind=UB, timeout=240)
+              cls="P" if k == "ii" else "B", bound=None if k == "ii" else B3, enforce=E(f), unwind=UB, timeout=400,
+              checks=STD if k == "ss" else NOPTR)
     for f, fns, extra in (("bintLength", ["bintLength", "intLength", "uintLength"], []),
                           ("bintBit", ["bintBit", "intBit", "uintBit"], ["ix"])):
         for k, kn in K1:
             J("bint.%s.%s" % (f, kn), "h_%s_%s" % (f, k), fns, bk("b")[:-1] + extra,
-              cls="P" if k == "i" else "B", bound=None if k == "i" else B3, enforce=E(f), unwind=UB, timeout=240)
+              cls="P" if k == "i" else "B", bound=None if k == "i" else B3, enforce=E(f), unwind=UB, timeout=400,
+              checks=NOPTR if k == "i" else STD)
     J("bint.bintToULong", "h_bintToULong", ["bintToULong"], bk("b")[:-1], cls="B", bound="2 digits (its only call site)", unwind=UB)
     for f, e, ins in (("bintEQ", "h_bintEQ_ss", bk("a")[:-1] + bk("b0")[:-1] + ["same"]),
                       ("bintLT", "h_bintLT_ss", bk("a")[:-1] + bk("b0")[:-1] + ["same"]),
@@ -145,7 +147,8 @@ def jobs(tier):
     for f in ("bintNegate", "bintAbs", "bintCopy"):
         for k, kn in K1:
             J("bint.%s.%s" % (f, kn), "h_%s_%s" % (f, k), [f, "bintCopy", "bintNew"] + ALLOC, bk("a")[:-1],
-              cls="P" if k == "i" else "B", bound=None if k == "i" else B3, unwind=UB, timeout=240)
+              cls="P" if k == "i" else "B", bound=None if k == "i" else B3, unwind=UB, timeout=400,
+              checks=NOPTR if k == "i" else STD)
     J("canary.bint.bintNegate", "h_bintNegate_s", ["bintNegate"], bk("a")[:-1], cls="B", bound=B3, unwind=UB,
       defs=["-DCANARY_bintNegate"], kind="canary", timeout=240)
 
@@ -175,7 +178,8 @@ def jobs(tier):
     for k, kn in K1:
         for u, un in (("0", "0"), ("1", "1"), ("m1", "-1")):
             J("bint.bintTimes.by_%s.%s" % (un, kn), "h_bintTimes_unit_%s_%s" % (k, u), ["bintTimes", "bintCopy", "bintNegate", "bintNew"],
-              ["swap"] + bk("b")[:-1], cls="P" if k == "i" else "B", bound=None if k == "i" else B3, unwind=UB)
+              ["swap"] + bk("b")[:-1], cls="P" if k == "i" else "B", bound=None if k == "i" else B3, unwind=UB, timeout=400,
+              checks=NOPTR if k == "i" else STD)
     J("canary.bint.bintTimes", "h_bintTimes_unit_s_m1", ["bintTimes"], ["swap"] + bk("b")[:-1], cls="B", bound=B3,
       unwind=UB, defs=["-DCANARY_bintTimes"], kind="canary")
 
